@@ -328,16 +328,16 @@ SENSITIVITY = [
     ("deep_clone_op: XObject looked up among the fonts (seeded C20b)", CO, [("if !resources.xobjects.contains_key(name) {", "if !resources.fonts.contains_key(name) {")]),
     # ---- round 3: named constants, one more level of helpers, evaluated dispatch
     ("const: ASCII85 first symbol", E, [("const A85_FIRST: u8 = b'!';", "const A85_FIRST: u8 = b'\\\"';"), ("b @ 0x21 ..= 0x75 => Some(b - 0x21)", "b @ 0x22 ..= 0x75 => Some(b - 0x22)")]),
-    ("const: run-length EOD marker 127", E, [("const RUN_LENGTH_EOD: u8 = 128;", "const RUN_LENGTH_EOD: u8 = 127;"), ("} else if length >= 129 {", "} else if length >= 128 {")]),
+    ("const: run-length EOD marker 127", E, [("const RUN_LENGTH_EOD: u8 = 128;", "const RUN_LENGTH_EOD: u8 = 127;"), ("} else if length >= 129 {", "} else if length >= 128 {"), ("} else if len_byte >= 129 {", "} else if len_byte >= 128 {")]),
     ("const: a local const shadows nothing else (PAGE depth)", TY, [("const PAGE_TREE_DEPTH: usize = 16;", "const PAGE_TREE_DEPTH: usize = 15;"), ("const MAX_PAGE_TREE_DEPTH: usize = 16;", "const MAX_PAGE_TREE_DEPTH: usize = 15;"), ("self.page_limited(resolve, page_nr, 16)", "self.page_limited(resolve, page_nr, 15)")]),
     ("const: AES IV length", C, [("const AES_IV_LEN: usize = 16;", "const AES_IV_LEN: usize = 15;"), ("let (iv, ciphertext) = data.split_at_mut(16);", "let (iv, ciphertext) = data.split_at_mut(15);", 0)]),
-    ("const: AES salt", C, [('const AES_SALT: &[u8; 4] = b"sAlT";', 'const AES_SALT: &[u8; 4] = b"sAlt";'), ('b"sAlT"', 'b"salT"')]),
+    ("const: AES salt", C, [('const AES_SALT: &[u8; 4] = b"sAlT";', 'const AES_SALT: &[u8; 4] = b"sAlt";'), ('b"sAlT"', 'b"salT"'), ("[0x73, 0x41, 0x6C, 0x54]", "[0x73, 0x61, 0x6C, 0x54]"), ("[b's', b'A', b'l', b'T']", "[b's', b'a', b'l', b'T']")]),
     ("const: PADDING byte", C, [("0x28, 0xBF, 0x4E, 0x5E", "0x28, 0xBF, 0x4E, 0x5F"), ("0x28, 0xbf, 0x4e, 0x5e", "0x28, 0xbf, 0x4e, 0x5f")]),
     ("const: R5 password cap", C, [("const MAX_PASSWORD_LEN_V5: usize = 127;", "const MAX_PASSWORD_LEN_V5: usize = 126;"), ("if password_encoded.len() > 127 {", "if password_encoded.len() > 126 {")]),
     ("const table: inline-image key abbreviation", CO, [('("BPC", "BitsPerComponent"),', '("BPC", "BitsPerComponents"),')]),
-    ("const table: lexer delimiters", L, [('const DELIMITERS: &[u8] = b"()<>[]{}/%";', 'const DELIMITERS: &[u8] = b"()<>[]{}/";'), ('b"()<>[]{}/%".contains(b)', 'b"()<>[]{}%".contains(b)')]),
+    ("const table: lexer delimiters", L, [('const DELIMITERS: &[u8] = b"()<>[]{}/%";', 'const DELIMITERS: &[u8] = b"()<>[]{}/";'), ('b"()<>[]{}/%".contains(b)', 'b"()<>[]{}%".contains(b)'), (" | b'/' | b'%'))", " | b'%'))")]),
     ("unpredict: TIFF value 3", E, [("            2 => tiff_unpredict(decoded, params),", "            3 => tiff_unpredict(decoded, params),"), ("} else if predictor == 2 {", "} else if predictor == 3 {"), ("        2 => tiff_unpredict(decoded, params),", "        3 => tiff_unpredict(decoded, params),")]),
-    ("run_length_decode: repeat runs from 130", E, [("            129..=255 => {", "            130..=255 => {"), ("} else if length >= 129 {", "} else if length >= 130 {"), ("} else if length > RUN_LENGTH_EOD {", "} else if length > RUN_LENGTH_EOD + 1 {")]),
+    ("run_length_decode: repeat runs from 130", E, [("            129..=255 => {", "            130..=255 => {"), ("} else if length >= 129 {", "} else if length >= 130 {"), ("} else if length > RUN_LENGTH_EOD {", "} else if length > RUN_LENGTH_EOD + 1 {"), ("} else if len_byte >= 129 {", "} else if len_byte >= 130 {")]),
     ("serialize_ops: keyword handed to the name-operand helper", CO, [('serialize_name_op(name, "gs", f)?', 'serialize_name_op(name, "gS", f)?'), ('writeln!(f, " gs")?;', 'writeln!(f, " gS")?;')]),
     ("next_word: an unterminated comment stops one byte early", L, [(".map_or(self.buf.len(), |off| pos + off + 1);", ".map_or(self.buf.len() - 1, |off| pos + off + 1);"), ("None => pos = self.buf.len(),", "None => pos = self.buf.len() - 1,")]),
     ("from_password: R5 password truncation dropped", C, [("&password_encoded[..password_encoded.len().min(MAX_PASSWORD_LEN_V5)];", "&password_encoded[..password_encoded.len()];"), ("password_encoded = &password_encoded[..127];", "password_encoded = &password_encoded[..128];")]),
